@@ -178,6 +178,34 @@ def _bind(callee, call, skip_self):
     return env
 
 
+def _needs_local(pname, arg, body_nodes):
+    """The argument of parameter ``pname`` contains a call and the helper
+    reads the parameter more than once, not at all, or inside a loop /
+    comprehension / lambda: substituting the expression would evaluate it a
+    different number of times than the call did."""
+    if isinstance(arg, list) or not isinstance(arg, ast.AST):
+        return False
+    if not any(isinstance(x, (ast.Call, ast.Yield, ast.YieldFrom, ast.Await,
+                              ast.NamedExpr)) for x in ast.walk(arg)):
+        return False
+    uses = 0
+    in_loop = False
+    for root in body_nodes:
+        stack = [(root, False)]
+        while stack:
+            n, lp = stack.pop()
+            if isinstance(n, ast.Name) and n.id == pname and isinstance(
+                    n.ctx, ast.Load):
+                uses += 1
+                in_loop = in_loop or lp
+            for c in ast.iter_child_nodes(n):
+                stack.append((c, lp or isinstance(
+                    n, (ast.For, ast.While, ast.ListComp, ast.SetComp,
+                        ast.DictComp, ast.GeneratorExp, ast.Lambda,
+                        ast.FunctionDef))))
+    return uses != 1 or in_loop
+
+
 def _assigned_names(body):
     out = set()
     for st in body:
@@ -316,8 +344,10 @@ class Inliner:
         out = []
         # a parameter the helper rebinds becomes a local initialised with
         # the argument
-        for pn in [p_ for p_ in env if p_ in assigned
-                   and not isinstance(env[p_], list)]:
+        for pn in [p_ for p_ in env if not isinstance(env[p_], list)
+                   and (p_ in assigned or _needs_local(
+                       p_, env[p_], body + ([tail] if tail is not None
+                                            else [])))]:
             out.append(ast.Assign(
                 targets=[ast.Name(id=pn + suffix, ctx=ast.Store())],
                 value=clone(env[pn])))
@@ -401,8 +431,8 @@ class Inliner:
         full = dict(env)
         full.update(ren)
         pre = []
-        for pn in [p_ for p_ in env if p_ in assigned
-                   and not isinstance(env[p_], list)]:
+        for pn in [p_ for p_ in env if not isinstance(env[p_], list)
+                   and (p_ in assigned or _needs_local(p_, env[p_], gbody))]:
             pre.append(ast.Assign(
                 targets=[ast.Name(id=pn + suffix, ctx=ast.Store())],
                 value=clone(env[pn])))
@@ -481,8 +511,8 @@ class Inliner:
         full = dict(env)
         full.update(ren)
         pre = []
-        for pn in [p_ for p_ in env if p_ in assigned
-                   and not isinstance(env[p_], list)]:
+        for pn in [p_ for p_ in env if not isinstance(env[p_], list)
+                   and (p_ in assigned or _needs_local(p_, env[p_], body))]:
             pre.append(ast.Assign(
                 targets=[ast.Name(id=pn + suffix, ctx=ast.Store())],
                 value=clone(env[pn])))
@@ -559,10 +589,138 @@ class Inliner:
         self.drop_absorbed()
         self.fold_getattr()
         self.unroll_literal_loops()
+        self.scalarise_namedtuples()
         if self.notes:
             self.split_tuple_assigns()
         ast.fix_missing_locations(self.tree)
         return self.tree
+
+    def scalarise_namedtuples(self):
+        """A local that is only ever bound to ``NT(...)`` of a module-level
+        namedtuple and only ever read as ``v.field`` is replaced by one local
+        per field (scalar replacement): ``v = NT(a, b)`` -> ``v__x = a;
+        v__y = b``, ``v.x`` -> ``v__x``.  Values, order of evaluation and
+        control flow are unchanged."""
+        if not self.ntuples:
+            return
+        for f in [x for x in ast.walk(self.tree)
+                  if isinstance(x, ast.FunctionDef)]:
+            params = {a.arg for a in f.args.args + f.args.kwonlyargs}
+            cands = {}
+            for st in ast.walk(f):
+                if isinstance(st, ast.Assign) and len(
+                        st.targets) == 1 and isinstance(
+                            st.targets[0], ast.Name) and isinstance(
+                                st.value, ast.Call) and isinstance(
+                                    st.value.func, ast.Name) and \
+                        st.value.func.id in self.ntuples:
+                    cands.setdefault(st.targets[0].id, []).append(st)
+            for v, defs in list(cands.items()):
+                if v in params:
+                    continue
+                nts = {d.value.func.id for d in defs}
+                if len(nts) != 1:
+                    continue
+                fields = self.ntuples[nts.pop()]
+                ok = True
+                # every binding of v is one of the constructor calls
+                for x in ast.walk(f):
+                    if isinstance(x, ast.Name) and x.id == v:
+                        par = getattr(x, '_inl_parent', None)
+                    if isinstance(x, (ast.For, ast.comprehension)) and any(
+                            isinstance(y, ast.Name) and y.id == v
+                            for y in ast.walk(x.target)):
+                        ok = False
+                    if isinstance(x, (ast.AugAssign, ast.NamedExpr)) and \
+                            isinstance(x.target, ast.Name) and \
+                            x.target.id == v:
+                        ok = False
+                    if isinstance(x, ast.Assign):
+                        for t in x.targets:
+                            for y in ast.walk(t):
+                                if isinstance(y, ast.Name) and y.id == v \
+                                        and x not in defs:
+                                    ok = False
+                    if isinstance(x, (ast.Global, ast.Nonlocal)) and \
+                            v in x.names:
+                        ok = False
+                # complete argument lists
+                bound = []
+                for d in defs:
+                    c = d.value
+                    if any(isinstance(a, ast.Starred) for a in c.args) or \
+                            any(k.arg is None for k in c.keywords):
+                        ok = False
+                        break
+                    vals = dict(zip(fields, c.args))
+                    for k in c.keywords:
+                        vals[k.arg] = k.value
+                    if set(vals) != set(fields) or len(c.args) + len(
+                            c.keywords) != len(fields):
+                        ok = False
+                        break
+                    # evaluation order as written
+                    order = list(fields[:len(c.args)]) + [
+                        k.arg for k in c.keywords]
+                    bound.append((d, vals, order))
+                if not ok:
+                    continue
+                # every read is v.<field>
+                attr_loads = {id(x.value) for x in ast.walk(f)
+                              if isinstance(x, ast.Attribute)
+                              and isinstance(x.value, ast.Name)
+                              and x.value.id == v and x.attr in fields
+                              and isinstance(x.ctx, ast.Load)}
+                for x in ast.walk(f):
+                    if isinstance(x, ast.Name) and x.id == v and isinstance(
+                            x.ctx, ast.Load) and id(x) not in attr_loads:
+                        ok = False
+                if not ok:
+                    continue
+                used = {x.id for x in ast.walk(f) if isinstance(x, ast.Name)}
+                if any(f'{v}__{fl}' in used for fl in fields):
+                    continue
+
+                class R(ast.NodeTransformer):
+
+                    def visit_Attribute(self_, n):
+                        n = self_.generic_visit(n)
+                        if isinstance(n.value, ast.Name) and \
+                                n.value.id == v and n.attr in fields:
+                            return ast.copy_location(
+                                ast.Name(id=f'{v}__{n.attr}', ctx=n.ctx), n)
+                        return n
+
+                def rewrite(block):
+                    i = 0
+                    while i < len(block):
+                        st = block[i]
+                        hit = [b for b in bound if b[0] is st]
+                        if hit:
+                            _, vals, order = hit[0]
+                            new = []
+                            for fl in order:
+                                a = ast.Assign(targets=[ast.Name(
+                                    id=f'{v}__{fl}', ctx=ast.Store())],
+                                    value=vals[fl])
+                                ast.copy_location(a, st)
+                                new.append(a)
+                            block[i:i + 1] = new
+                            i += len(new)
+                            continue
+                        for fld in ('body', 'orelse', 'finalbody'):
+                            b2 = getattr(st, fld, None)
+                            if isinstance(b2, list) and b2 and isinstance(
+                                    b2[0], ast.stmt):
+                                rewrite(b2)
+                        for h in getattr(st, 'handlers', []) or []:
+                            rewrite(h.body)
+                        i += 1
+
+                rewrite(f.body)
+                R().visit(f)
+                self.notes.append(f'{f.name}: namedtuple local "{v}" '
+                                  'replaced by one local per field')
 
     def split_tuple_assigns(self):
         """``a, b = X, Y`` -> ``a = X; b = Y`` in functions that received
@@ -886,6 +1044,9 @@ class Inliner:
                 env = _bind(h, n, skip)
                 if env is None:
                     return n
+                if any(_needs_local(p_, a_, [e]) for p_, a_ in env.items()):
+                    return n  # would change how often an argument is
+                    #           evaluated; stays a call
                 nonlocal changed
                 changed = True
                 me.notes.append(f'{owner.name}: inlined expression helper '
